@@ -23,15 +23,25 @@ fn id_num(id: &str) -> i64 {
 fn id_pad(id: &str) -> usize {
     match id { "a" => 2, "b" => 3, "c" => 7, _ => 1 }
 }
+const ZERO_SCHEMA: &str = r#""null""#;
+/// zero mode (id "z"): schema "null", every value is zero bytes wide
 fn good_value(id: &str) -> Value {
+    if id == "z" { return Value::Null; }
     Value::Record(vec![("a".into(), Value::Long(id_num(id))), ("b".into(), Value::String("x".repeat(id_pad(id))))])
 }
 // (the schema-aware deserializer requires the struct's serde name to be the record's name)
 #[derive(Serialize, serde::Deserialize)]
 #[serde(rename = "R")]
 struct GoodSer { a: i64, b: String }
-fn good_ser(id: &str) -> GoodSer {
-    GoodSer { a: id_num(id), b: "x".repeat(id_pad(id)) }
+enum AnySer { Good(GoodSer), Unit }
+impl Serialize for AnySer {
+    fn serialize<S: serde::Serializer>(&self, s: S) -> Result<S::Ok, S::Error> {
+        match self { AnySer::Good(g) => g.serialize(s), AnySer::Unit => s.serialize_unit() }
+    }
+}
+fn good_ser(id: &str) -> AnySer {
+    if id == "z" { return AnySer::Unit; }
+    AnySer::Good(GoodSer { a: id_num(id), b: "x".repeat(id_pad(id)) })
 }
 /// serializes field `a`, then fails
 struct FailingSer;
@@ -44,6 +54,7 @@ impl Serialize for FailingSer {
     }
 }
 fn value_id(v: &Value) -> String {
+    if *v == Value::Null { return "z".to_string(); }
     if let Value::Record(fs) = v {
         if fs.len() == 2 {
             if let (Value::Long(n), Value::String(s)) = (&fs[0].1, &fs[1].1) {
@@ -79,12 +90,13 @@ fn observe(sink: &SharedSink, schema: &Schema, codec: Codec) -> J {
 }
 
 fn replay_one(bid: usize, scn: &J, out: &mut Box<dyn std::io::Write>) {
-    let schema = Schema::parse_str(SCHEMA).unwrap();
+    let zero = scn.get("zero").and_then(|z| z.as_bool()).unwrap_or(false);
+    let schema = Schema::parse_str(if zero { ZERO_SCHEMA } else { SCHEMA }).unwrap();
     let block_size = scn["block_size"].as_u64().unwrap_or(16000) as usize;
     let (codec, codec_name) = codec_for(scn.get("codec").and_then(|c| c.as_u64()).map(|c| c as usize).unwrap_or(bid));
     let sink = SharedSink::new();
     let marker0 = [0x5au8; 16];
-    writeln!(out, "{}", json!({"ev":"begin","bid":bid,"block_size":block_size,"codec":codec_name})).unwrap();
+    writeln!(out, "{}", json!({"ev":"begin","bid":bid,"block_size":block_size,"codec":codec_name,"zero":zero})).unwrap();
     let mk = |sink: &SharedSink, has_header: bool, marker: [u8; 16]| {
         Writer::builder().schema(&schema).writer(sink.clone()).codec(codec).block_size(block_size)
             .marker(marker).has_header(has_header).build().unwrap()
@@ -112,14 +124,14 @@ fn replay_one(bid: usize, scn: &J, out: &mut Box<dyn std::io::Write>) {
             }
             "append-rejected" => {
                 let w = writer.as_mut().unwrap();
-                let bad = Value::Record(vec![("a".into(), Value::Long(7)), ("b".into(), Value::Long(8))]);
+                let bad = if zero { Value::Long(7) } else { Value::Record(vec![("a".into(), Value::Long(7)), ("b".into(), Value::Long(8))]) };
                 match guarded(std::panic::AssertUnwindSafe(|| if variant % 2 == 0 { w.append_value(bad.clone()) } else { w.append_value_ref(&bad) })) {
                     Ok(r) => r.map(|_| ()).map_err(|e| e.to_string()), Err(p) => { panicked = true; Err(p) } }
             }
             "append-encode-fails" => {
                 let w = writer.as_mut().unwrap();
                 // field a is encoded, then field b (an array under a string schema) makes the encoder fail
-                let bad = Value::Record(vec![("a".into(), Value::Long(7)), ("b".into(), Value::Array(vec![Value::Long(8)]))]);
+                let bad = if zero { Value::Array(vec![Value::Long(8)]) } else { Value::Record(vec![("a".into(), Value::Long(7)), ("b".into(), Value::Array(vec![Value::Long(8)]))]) };
                 match guarded(std::panic::AssertUnwindSafe(|| match variant % 3 {
                     0 => w.unvalidated_append_value_ref(&bad).map(|_| ()),
                     1 => w.unvalidated_append_value(bad.clone()).map(|_| ()),
@@ -142,10 +154,10 @@ fn replay_one(bid: usize, scn: &J, out: &mut Box<dyn std::io::Write>) {
             "extend-bad" => {
                 // the good values `pre`, then a value validation rejects, then one more good value
                 let ids: Vec<String> = op[1].as_array().unwrap().iter().map(|x| x.as_str().unwrap().to_string()).collect();
-                let bad = Value::Record(vec![("a".into(), Value::Long(7)), ("b".into(), Value::Long(8))]);
+                let bad = if zero { Value::Long(7) } else { Value::Record(vec![("a".into(), Value::Long(7)), ("b".into(), Value::Long(8))]) };
                 let mut vs: Vec<Value> = ids.iter().map(|i| good_value(i)).collect();
                 vs.push(bad);
-                vs.push(good_value("a"));
+                vs.push(good_value(if zero { "z" } else { "a" }));
                 let w = writer.as_mut().unwrap();
                 match guarded(std::panic::AssertUnwindSafe(|| if variant % 2 == 0 { w.extend(vs.clone()).map(|_| ()) } else { w.extend_from_slice(&vs).map(|_| ()) })) {
                     Ok(r) => r.map_err(|e| e.to_string()), Err(p) => { panicked = true; Err(p) } }
@@ -215,10 +227,16 @@ fn replay_one(bid: usize, scn: &J, out: &mut Box<dyn std::io::Write>) {
         let mut dids = vec![];
         let mut derr = false;
         if let Ok(rd2) = Reader::new(&bytes[..]) {
-            for it in rd2.into_deser_iter::<GoodSer>() {
-                match it {
-                    Ok(g) => dids.push(value_id(&Value::Record(vec![("a".into(), Value::Long(g.a)), ("b".into(), Value::String(g.b))]))),
-                    Err(_) => { derr = true; }
+            if zero {
+                for it in rd2.into_deser_iter::<()>() {
+                    match it { Ok(()) => dids.push("z".to_string()), Err(_) => { derr = true; } }
+                }
+            } else {
+                for it in rd2.into_deser_iter::<GoodSer>() {
+                    match it {
+                        Ok(g) => dids.push(value_id(&Value::Record(vec![("a".into(), Value::Long(g.a)), ("b".into(), Value::String(g.b))]))),
+                        Err(_) => { derr = true; }
+                    }
                 }
             }
         } else { derr = true; }
